@@ -123,8 +123,9 @@ def harnesses(tier):
                 hs.append(VecOp(m, k, 3))
         for m in ("sort", "rank", "unique"):
             hs.append(VecOp(m, "O", 2))
+        hs.append(VecOp("sort", "ns", 2)); hs.append(VecOp("unique", "ns", 2))
     else:
-        for k in ["f", "i", "T", "b", "D", "us", "U", "td"]:
+        for k in ["f", "i", "T", "b", "D", "us", "U", "td", "ns"]:
             for m in ("sort", "rank", "unique"):
                 hs.append(VecOp(m, k, 4))
         for m in ("sort", "rank", "unique"):
